@@ -13,8 +13,12 @@
   (b) `xml_three_views_agree`: the flat edit list of `get_all_edit_contexts` (compound edits exploded, zero-cost
       edits skipped), the root edit's own cost and `edited_cost()` of the annotated root are the same number.
 
-  No hypotheses: all options, all oracle answers (assignment-solver matchings of the attribute MultiSetEdits), all
-  elements — the attribute mapping may be ANY L2 tree.
+  No hypotheses on the SCRIPT: all options, all oracle answers (assignment-solver matchings of the attribute
+  MultiSetEdits), all elements — the attribute mapping may be ANY L2 tree.  Caveat (as for L2, Props/C03.lean): the
+  cost of an XMLElementEdit / fixed child-list script is a sum BY DEFINITION (`xCompound`); only `kidsEd` and the
+  embedded `ed` / `str` scripts carry an independent total, and there is NO operational (L3) model of
+  `XMLElementEdit.bounds()` — the engine-side link `C03.engine_reported_eq_sum_docs` (needs `OrcFull`) covers
+  JSON-family documents only; for XML the reported cost is tied to the sum by the `scriptxml` stream's monitor.
 -/
 import GtModel.Proofs.XmlCost
 import GtModel.Props.C03
